@@ -3,7 +3,7 @@
    class i to the i-th key of an ascending table of real keys (tag 0); for ComparableTree the tag makes
    keys that are order-equivalent but distinguishable, so the stored representative is observable. *)
 From Coq Require Import ZArith.
-From GB Require Import Model Spec Inv.
+From GB Require Import Model Spec Inv Order.
 
 Definition HK : Type := (Z * Z)%type.
 Definition HV : Type := option Z.          (* None = nil interface value *)
@@ -24,3 +24,4 @@ Definition h_put := @put HK HV hltb.
 Definition h_remove := @erase HK HV hltb.
 Definition h_lookup := @lookup HK HV hltb.
 Definition h_from := @from HK HV hltb.
+Definition h_check_order := check_order.
